@@ -30,7 +30,7 @@ FilterCauses(doc, flt, r) ==
             \cup (IF "openid" \notin RangeS(r.scopes) THEN {"openid-scope-missing"} ELSE {})
             \cup (IF ~(ownSc \subseteq RangeS(r.scopes)) THEN {"merge-scopes"} ELSE {})
             \* resolved: nothing a later check could trip over
-            \cup (IF r.cid = "" \/ r.secret = "none" \/ r.header = "" \/ (r.authz = "" /\ r.conf = "") THEN {"accepted-but-not-resolved"} ELSE {})
+            \cup (IF r.cid = "" \/ r.secret = "none" \/ r.header = "" \/ ((r.authz = "" \/ r.token = "") /\ r.conf = "") THEN {"accepted-but-not-resolved"} ELSE {})
           ELSE {})
 
 Causes ==
